@@ -96,7 +96,7 @@ CHECKS["C01"] = {
     "level": "exploration",
     "technique": "property-based testing (rapid) of the real lookup over a simulated network under synctest virtual time; history-invariant oracle over result, lookup events and the simulated peers' log",
     "level_text": "Generated adversarial networks (faults, liars, latencies that fix the arrival order, filters) are executed against the real GetClosestPeers inside a virtual-time bubble; "
-                  "the oracle recomputes learned/failed sets from the simulation log with the documented ingress rules and checks result exactness and event/log agreement. Exploration: scenarios are sampled.",
+                  "the oracle recomputes learned/failed sets from the simulation log with the documented ingress rules and checks result exactness and event/log agreement; a second part cancels the caller's context at a drawn instant and holds what is returned with the context error to the same clauses. Exploration: scenarios are sampled.",
     "level_note": "The transport is a model (fake host and message sender honouring context cancellation, 10 s read and 60 s dial timeouts); peer ids are arbitrary multihashes; "
                   "the routing table library (go-libp2p-kbucket) is trusted for the seed selection that is observed, not predicted.",
     "parts": [
@@ -136,7 +136,7 @@ CHECKS["C04"] = {
     "technique": "property-based testing (rapid) of value searches over simulated responders with assigned valid/stale/invalid/mis-keyed records; validity, strict-improvement and best-of-supplied oracle",
     "level_text": "Generated assignments of records to responders and local storage, quorums and arrival orders are executed against the real SearchValue/GetValue/GetPublicKey; every yielded value is "
                   "re-validated, the stream must be strictly improving and the final value at least as good as every valid value supplied before the stream ended. Exploration: scenarios are sampled.",
-    "level_note": "Test validator = total order on (rank, bytes) with optional end-of-life under the virtual clock; the standard client is exercised here, the accelerated and dual clients in C16/C15 parts.",
+    "level_note": "Test validator = order on rank with ties between byte variants (Select keeps the first of equals) and an optional end-of-life under the virtual clock; parts: standard client, accelerated client (FullRT over a fake crawl), GetPublicKey with fixed non-inlined ECDSA keys; the dual client's GetValue preference is checked in C15.",
     "parts": [
         {"part": "values", "pkg": ROOT, "test": "TestVerif_C04_Values", "quick": 2500, "thorough": 40000},
         {"part": "fullrt", "pkg": "./fullrt/", "test": "TestVerif_C04_FullRT", "quick": 1200, "thorough": 20000},
@@ -201,10 +201,10 @@ NETP = "./internal/net/"
 CHECKS["C11"] = {
     "engine": "wire",
     "level": "exploration",
-    "technique": "property-based testing (rapid) of the real message sender over fake streams with scripted honest responders under synctest virtual time; request-id echo oracle and per-stream history invariants",
+    "technique": "property-based testing (rapid) of the real message sender over fake streams with scripted honest responders under synctest virtual time, with generated pauses at build-tag yield points of the sender bookkeeping; request-id echo oracle and per-stream / per-peer history invariants",
     "level_text": "Generated client schedules (concurrent requests, cancellation instants, disconnects, failing stream opens) and responder scripts (delays around the read timeout, resets, closes, garbage, silence) run against the real "
                   "messageSenderImpl; each request carries a unique id that an honest responder echoes, so a mismatched reply is directly visible; per-stream histories give the serialization/reset clauses. Exploration.",
-    "level_note": "Virtual time fixes the order of every reply, timeout and cancellation; interleavings below the level of blocking operations are not controlled; the in-memory pipe stands in for a libp2p stream.",
+    "level_note": "Virtual time fixes the order of every reply, timeout and cancellation; three interleaving points inside the per-peer sender bookkeeping are owned through the verif hook (drawn pauses), others below the level of blocking operations are not controlled; the in-memory pipe (optionally with blocking writes) stands in for a libp2p stream.",
     "parts": [
         {"part": "message-sender", "pkg": NETP, "test": "TestVerif_C11_MessageSender", "quick": 2000, "thorough": 30000},
     ],
@@ -215,7 +215,7 @@ CHECKS["C12"] = {
     "level": "exploration",
     "technique": "stateful property-based testing (rapid) of routing-table admission/eviction over a simulated network under synctest; invariant over membership at quiescent points vs. the per-peer success/failure history of the simulation",
     "level_text": "Generated histories of identify/protocol events, lookups with changing peer health, cancelled lookups, refreshes, clock advances and Close racing refreshes run against the real IpfsDHT; at every quiescent point the "
-                  "membership is compared with the per-peer history in the simulation log (proof of an answer for every member, no member whose latest interaction is a failure/protocol-gone), and every refresh channel must deliver exactly one value. Exploration.",
+                  "membership is compared with the per-peer history in the simulation log (proof of an answer for every member, an admission on the strength of the probe alone only for a peer that advertises the protocol and passes the filter, no member whose latest interaction is a failure/protocol-gone), and every refresh channel must deliver exactly one value. Histories include passes of the low-peers repair and peers already connected at construction. Exploration.",
     "level_note": "Quiescent points = 3 min of virtual time after each event plus synctest.Wait; retention of healthy peers is not asserted (bucket replacement is legitimate); failures inside the window of a cancelled lookup are not counted as failures.",
     "parts": [
         {"part": "routing-table", "pkg": ROOT, "test": "TestVerif_C12_RoutingTable", "quick": 1200, "thorough": 20000},
@@ -255,7 +255,7 @@ CHECKS["C15"] = {
     "level": "exploration",
     "technique": "property-based testing (rapid) of dual.New over two simulated networks with address classes known by construction; differential oracle against the two inner DHTs and an address-scoping invariant over both simulation logs",
     "level_text": "Generated WAN/LAN networks, routing-table emptiness, host address sets and operations run against the real dual DHT built with dual.New (so the option layering really installs the filters); the oracle checks which network saw the "
-                  "write RPCs, compares reads with the inner DHTs' own results, and checks every WAN request target, stored address and advertised address against the address classes. Exploration.",
+                  "write RPCs (also when the WAN-side operation fails: newer local record, providers disabled), compares reads with the inner DHTs' own results, and checks every WAN request target, stored address and advertised address against the address classes. Exploration.",
     "level_note": "Address classes are public/private by construction (ambiguous classes such as CGNAT or DNS are not generated); seeds get a harness-made public connection address; both inner DHTs share one fake host as in production.",
     "parts": [
         {"part": "dual", "pkg": "./dual/", "test": "TestVerif_C15_Dual", "quick": 1200, "thorough": 20000},
@@ -265,9 +265,9 @@ CHECKS["C15"] = {
 CHECKS["C14"] = {
     "engine": "simnet",
     "level": "exploration",
-    "technique": "property-based testing (rapid) of Close/constructor-failure schedules under synctest with a goroutine census by id and a counting event bus; drawn Close instants, option matrices and injected constructor faults",
+    "technique": "property-based testing (rapid) of Close/constructor-failure schedules: under synctest with a goroutine census by id and a counting event bus (DHTs), and in real time with a harness-owned gate plus goroutine-state probe (buffered provider wrapper, record stores, whose Close paths wait on mutexes); drawn Close instants / overlaps, option matrices and injected constructor faults",
     "level_text": "For each component, generated option combinations, background activity and Close instants run against the real code inside a virtual-time bubble; the goroutines alive after construction are recorded by id and must all be gone when "
-                  "Close returns, every Close call and every in-flight operation must return without panic, and nothing may be left after the wind-down; constructors are failed at injected points and must leave no goroutine or subscription. Exploration.",
+                  "Close returns, every Close call and every in-flight operation must return without panic, and nothing may be left after the wind-down; constructors are failed at injected points and must leave no goroutine or subscription. The buffered wrapper and the record stores are closed 1-3 times with overlapping calls while their worker / an operation is held at a gate; no Close call may have returned while it is held. Exploration.",
     "level_note": "Censuses are taken at quiescent points (synctest.Wait, which does not advance the clock): a goroutine that Close does not wait for but that ends without the clock advancing is not distinguished; Close instants are virtual instants, not arbitrary instructions.",
     "parts": [
         {"part": "ipfsdht", "pkg": ROOT, "test": "TestVerif_C14_IpfsDHT", "quick": 1200, "thorough": 20000},
@@ -286,8 +286,8 @@ CHECKS["C17"] = {
     "technique": "stateful property-based testing (rapid) of the sweeping provider over a simulated swarm under synctest virtual time across several reprovide cycles; history oracle over the ADD_PROVIDER log with a brute-force nearest-r reference",
     "level_text": "Generated swarms (constructed clusters), key sets, worker configurations and histories (start/stop/provide-once, churn, outages, restarts, address changes) run against the real SweepingProvider for 1.2-3.3 reprovide intervals of virtual time; "
                   "the oracle reads the ADD_PROVIDER log and checks recipients, completeness with respect to the brute-force r nearest reachable peers of the swarm at send time, the reprovide bound and StopProviding; a model-based part checks the buffered wrapper. Exploration.",
-    "level_note": "Three regimes are generated and reported separately (bucket = r; bucket > r; swarm < r); routers that return only 1-2 peers are outside the documented operating assumptions and not generated; the oracle's verdict does not depend on the provider's "
-                  "internal random draws; message latency is 0 so a region send is atomic in virtual time.",
+    "level_note": "Three regimes are generated and reported separately (bucket = r; bucket > r; swarm < r); routers that return only 1-2 peers are outside the documented operating assumptions and not generated; closest-peers lookups cost 1-150 ms and failing lookups/sends 1 s of virtual time (never 0: a real clock cannot make 'now' coincide with a schedule slot to the nanosecond); "
+                  "the provider's own random draws (prefix-length sampling) are not controlled: verdicts are stated so that they do not depend on them, except for the two listed findings, which are identified by their circumstances.",
     "parts": [
         {"part": "sweep-mainstream", "pkg": PRV, "test": "TestVerif_C17_SweepA", "quick": 120, "thorough": 1500},
         {"part": "sweep-bucket-gt-r", "pkg": PRV, "test": "TestVerif_C17_SweepB", "quick": 80, "thorough": 1000},
